@@ -67,6 +67,7 @@ class Engine:
         self.sids = []              # their ast ids (terms are kept alive by sstack, so ids are stable)
         self.persist = {}           # cross-path cache of input terms (same names => same terms)
         self.check_timeout_ms = check_timeout_ms
+        self.cur_timeout_ms = check_timeout_ms
         self.max_paths = max_paths
         self.conc_limit = conc_limit
         self.stats = dict(paths=0, dropped=0, decisions=0, forced=0, solver_checks=0, solver_time=0.0,
@@ -129,24 +130,41 @@ class Engine:
             self.sstack.pop()
             self.sids.pop()
 
-    def _check(self, *assumptions):
+    def _check(self, *assumptions, retry='starved'):
+        """one solver query.  The solver's time limit is wall-clock: on a loaded machine a query that normally takes seconds may
+        hit it.  retry='starved': the query is repeated (once, with a limit scaled by the observed wall/CPU ratio, at most x8)
+        only when the process got less than 70% of a core while it ran - a genuine time-out of an opportunistic query
+        (branch feasibility, value merging: `unknown` is over-approximated there) is not paid twice.  retry='always' (proof
+        obligations, where `unknown` makes the whole check inconclusive): one retry with six times the engine's limit."""
         self._trim()
         t0 = _time.time()
+        c0 = _time.process_time()
         r = self.solver.check(*assumptions)
-        if r == z3.unknown and 'canceled' in self.solver.reason_unknown() or r == z3.unknown and 'timeout' in self.solver.reason_unknown():
-            # the time limit is wall-clock: on a loaded machine a query that normally takes seconds may hit it - one retry with a
-            # six-fold limit before the answer counts as unknown
-            self.solver.set('timeout', self.check_timeout_ms * 6)
-            try:
-                r = self.solver.check(*assumptions)
-            finally:
-                self.solver.set('timeout', self.check_timeout_ms)
-            self.stats['retries'] = self.stats.get('retries', 0) + 1
+        if r == z3.unknown and ('canceled' in self.solver.reason_unknown() or 'timeout' in self.solver.reason_unknown()):
+            wall = _time.time() - t0
+            cpu = max(_time.process_time() - c0, 1e-3)
+            limit = None
+            if retry == 'always':
+                limit = self.check_timeout_ms * 6
+            elif cpu < 0.7 * wall:
+                limit = int(min(8.0, 1.5 * wall / cpu) * wall * 1000)
+            if limit:
+                self.solver.set('timeout', limit)
+                try:
+                    r = self.solver.check(*assumptions)
+                finally:
+                    self.solver.set('timeout', self.cur_timeout_ms)
+                self.stats['retries'] = self.stats.get('retries', 0) + 1
         self.stats['solver_time'] += _time.time() - t0
         self.stats['solver_checks'] += 1
         if r == z3.unknown:
             self.stats['unknown'] += 1
         return r
+
+    def set_timeout(self, ms=None):
+        """time limit of the following queries (None: the engine's default)"""
+        self.cur_timeout_ms = ms or self.check_timeout_ms
+        self.solver.set('timeout', self.cur_timeout_ms)
 
     def pc(self):
         return list(self.sstack[:self.nconstraints])
